@@ -247,14 +247,16 @@ def make_multi_time_argument(func):
         multi_time = kwargs.pop("multi_time", None)
         do_jit = kwargs.get("jit", False)
         if multi_time is not None:
-            if kwargs.get("time", None) is not None:
+            # 'time' may have been passed by keyword or by position
+            bound = sig.bind_partial(self, *args, **kwargs)
+            if bound.arguments.pop("time", None) is not None:
                 raise ValueError(
                     "Cannot specify both 'time' and 'multi_time' arguments"
                 )
             multi_time = validate_array(multi_time, "multi_time")
 
             def at_time(t):
-                return func(self, *args, **kwargs, time=t)
+                return func(*bound.args, **bound.kwargs, time=t)
 
             if do_jit:
                 at_time = jit(at_time)
